@@ -7,6 +7,7 @@ Seams: directory-listing order, uuid.uuid4, np.random.choice, NSAMPLE_WAVEFORMS,
 """
 
 import copy
+import os
 import csv
 import uuid as _uuid
 
@@ -65,7 +66,7 @@ EXPECTED_PROBES = {
             'few_channels_on_probe', 'factor', 'second_export_from_same_session',
             're_export_into_same_directory', 'batch_boundary_size',
             'cluster_waveforms_recomputed_from_ground_truth',
-            'spike_depths_from_ground_truth_features'],
+            'spike_depths_from_ground_truth_features', 'inverse_whitening_from_ground_truth'],
 }
 
 TSV_NAMES = ['cluster_Amplitude.tsv', 'cluster_ContamPct.tsv', 'cluster_KSLabel.tsv']
@@ -90,6 +91,7 @@ def _probe_cfg(rng, shared, big):
     c['dtypes']['times'] = rng.choice(['uint64', 'int64'])
     c['dtypes']['find'] = rng.choice(['uint32', 'int32', 'int64'])
     c['dtypes']['chmap'] = rng.choice(['int32', 'uint32', 'int64'])
+    c['dtypes']['amps'] = 'float64'     # the amplitudes carry the harness' spike tags
     c['dtypes']['tmpl'] = shared['tmpl'] if rng.random() < 0.8 else \
         {'float32': 'float64', 'float64': 'float32'}[shared['tmpl']]
     c['unused_templates'] = []
@@ -193,6 +195,8 @@ def gen(rng, prop, tier):
     p['tfeature_rows'] = False
     d['dtypes']['ids'] = 'uint16' if (d['nt'] >= 130 and rng.random() < 0.6) else \
         rng.choice(['uint32', 'int32', 'int64'])
+    if d['dtypes'].get('amps') == 'float16':
+        d['dtypes']['amps'] = 'float32'    # (half-precision means depend on the evaluation order)
     d['colvec'] = [f for f in d['colvec'] if f != 'chmap']
     if rng.random() < 0.5:
         d['curation'] = world.gen_curation_ops(rng, rng.randint(1, 3))
@@ -208,6 +212,7 @@ def gen(rng, prop, tier):
     d['extras'] = {'ks_label': rng.random() < 0.5, 'temp_wh': rng.random() < 0.4,
                    'channel_labels': rng.random() < 0.3, 'drift': rng.random() < 0.2,
                    'alf_rawind': rng.random() < 0.12,
+                   'linked_ids': rng.random() < 0.1,
                    'pre_store': False}
     if p['raw'] and rng.random() < 0.3:
         d['extras']['pre_store'] = True
@@ -215,11 +220,16 @@ def gen(rng, prop, tier):
         # KiloSort leaves all-NaN templates for unused ids; the loader zeroes them in memory
         d['poison'].append({'name': 'tmpl', 'kind': 'nan_template',
                             'ids': d['unused_templates'][:2]})
+    if not p['wm'] and rng.random() < 0.2:
+        d['wmi_only'] = True      # only the inverse whitening matrix is there
     cfg['dataset'] = d
     cfg['knobs']['nsample_waveforms'] = rng.choice([1, 3, 10, 500])
     if rng.random() < 0.6:
         cfg['knobs']['n_closest_channels'] = rng.choice([2, 3, 5, 12, 32])
     ops = [{'op': 'load'}]
+    if rng.random() < 0.2:
+        # history: the folder has been opened before (an earlier session left its cache files)
+        ops.append({'op': 'reopen_source'})
     if rng.random() < 0.3:
         ops.append({'op': 'convert_into_source',
                     'alias': rng.choice(['same', 'str', 'symlink', 'dotdot', 'trailing']),
@@ -853,6 +863,13 @@ def check_export_values(ctx, model, out, op, orig_maps, src_gt=None):
     ld = lambda base: np.load(_find(out, base, label))  # noqa
     ns, nt, nc = model.n_spikes, model.n_templates, model.n_channels
     wmi = np.asarray(model.wmi, dtype=np.float64)
+    if src_gt is not None and getattr(src_gt[1], 'wm_dtype', 'float64') == 'float64':
+        # source written by the dataset world: the inverse whitening matrix from the ground truth
+        # (what an earlier session cached in the folder is not trusted)
+        g_ = src_gt[1]
+        wmi = np.asarray(g_.wmi_file if g_.wmi_file is not None else (
+            np.linalg.inv(g_.wm) if g_.wm is not None else np.eye(nc)), dtype=np.float64)
+        ctx.probe('inverse_whitening_from_ground_truth')
     pos = np.asarray(model.channel_positions, dtype=np.float64)
     cprobes = np.asarray(model.channel_probes)
     st = np.asarray(model.spike_templates).astype(np.int64)
@@ -1076,6 +1093,15 @@ def run_ops(plan, ctx, cfg):
             (src_dir / 'temp_wh.dat').write_bytes(bytes(rs.randint(0, 256, size=64).tolist()))
         if ex['channel_labels']:
             np.save(src_dir / 'channel_labels.npy', rs.randint(0, 4, size=d['nc']))
+        if ex.get('linked_ids') and d['present']['sclusters']:
+            # the id files are symbolic links into a shared store next to the dataset folder
+            store_ = root / 'id_store'
+            store_.mkdir(exist_ok=True)
+            for nm_ in ('spike_clusters.npy', 'spike_templates.npy'):
+                if (src_dir / nm_).exists() and not (src_dir / nm_).is_symlink():
+                    os.replace(str(src_dir / nm_), str(store_ / nm_))
+                    os.symlink(str(store_ / nm_), str(src_dir / nm_))
+            ctx.probe('source_id_files_are_symbolic_links')
         if ex.get('alf_rawind'):
             # an ALF-named copy of the channel map next to the KiloSort files (the loader prefers
             # channel_map.npy; the export must still write its own channels.rawInd)
@@ -1210,6 +1236,14 @@ def run_ops(plan, ctx, cfg):
                     return
                 check_merge_structure(ctx, probes, out, model, offs)
             src_dir = out
+        elif k == 'reopen_source':
+            if model is None or probes is not None:
+                continue
+            model.close()
+            model = ctx.real('load', load_model, src_dir / 'params.py', owners=('C04',))
+            models.append(model)
+            ctx.op('reopen_source')
+            ctx.probe('source_opened_in_an_earlier_session')
         elif k == 'load':
             if src_dir is None:
                 continue
